@@ -296,6 +296,13 @@ fn reference(stream: &[u8], limit: usize) -> Outcome {
 
 // ---------------------------------------------------------------- stream generators
 fn gen_request(rng: &mut Rng, limit: usize) -> Vec<u8> {
+    if rng.chance(3) {
+        // short request lines: the error names the first offending element whatever the length
+        let lines: [&[u8]; 8] = [b"GE / HTTP/1.1", b"GET  HTTP/1.1", b"GET / HTTP/1", b"G / H", b"GET /", b"A B C", b"GET / H", b"PUT /a HTTP/1."];
+        let mut r = lines[rng.below(8)].to_vec();
+        r.extend_from_slice(b"\r\n\r\n");
+        return r;
+    }
     let methods: [&[u8]; 5] = [b"GET", b"PUT", b"PATCH", b"get", b"POST"];
     let m = if rng.chance(90) { methods[rng.below(3)] } else { methods[rng.below(5)] };
     let mut r = m.to_vec();
@@ -329,7 +336,7 @@ fn gen_request(rng: &mut Rng, limit: usize) -> Vec<u8> {
     if rng.chance(4) { r.extend_from_slice(b"Content-Length: abc\r\n"); }
     if rng.chance(3) { r.extend_from_slice([&b"Content-Length: 4294967296\r\n"[..], b"Content-Length: 18446744073709551616\r\n", b"Content-Length: -1\r\n", b"Content-Length: +0\r\n", b"Content-Length:\r\n", b"Content-Length: \t \r\n"][rng.below(6)]); }
     r.extend_from_slice(b"\r\n");
-    for k in 0..body_len { r.push(if rng.chance(5) { b'\r' } else if rng.chance(5) { b'\n' } else { b'0' + (k % 10) as u8 }); }
+    for k in 0..body_len { r.push(if rng.chance(5) { b'\r' } else if rng.chance(5) { b'\n' } else if rng.chance(3) { 0u8 } else if rng.chance(2) { 0xffu8 } else { b'0' + (k % 10) as u8 }); }
     r
 }
 
@@ -757,10 +764,10 @@ fn search_c06(budget: usize) {
 }
 
 // a stream that counts write() calls and accepts at most 16 bytes per call (forces short writes)
-struct CountingStream { inner: UnixStream, writes: std::rc::Rc<std::cell::Cell<usize>> }
+struct CountingStream { inner: UnixStream, writes: std::rc::Rc<std::cell::Cell<usize>>, cap: usize }
 impl Read for CountingStream { fn read(&mut self, b: &mut [u8]) -> std::io::Result<usize> { self.inner.read(b) } }
 impl Write for CountingStream {
-    fn write(&mut self, b: &[u8]) -> std::io::Result<usize> { self.writes.set(self.writes.get() + 1); let n = b.len().min(16); self.inner.write(&b[..n]) }
+    fn write(&mut self, b: &[u8]) -> std::io::Result<usize> { self.writes.set(self.writes.get() + 1); let n = b.len().min(self.cap); self.inner.write(&b[..n]) }
     fn flush(&mut self) -> std::io::Result<()> { Ok(()) }
 }
 impl vmm_sys_util::sock_ctrl_msg::ScmSocket for CountingStream { fn socket_fd(&self) -> std::os::unix::io::RawFd { self.inner.as_raw_fd() } }
@@ -768,7 +775,7 @@ impl vmm_sys_util::sock_ctrl_msg::ScmSocket for CountingStream { fn socket_fd(&s
 fn one_write_per_call() {
     let (a, mut b) = UnixStream::pair().unwrap();
     let writes = std::rc::Rc::new(std::cell::Cell::new(0usize));
-    let mut c = HttpConnection::new(CountingStream { inner: a, writes: writes.clone() });
+    let mut c = HttpConnection::new(CountingStream { inner: a, writes: writes.clone(), cap: 16 });
     let mut r = Response::new(Version::Http11, StatusCode::OK);
     r.set_body(Body::new(vec![b'x'; 300]));
     c.enqueue_response(r);
@@ -782,6 +789,25 @@ fn one_write_per_call() {
             found("C03", "one response of ~400 bytes on a stream accepting 16 bytes per write".into(), format!("try_write call #{} performed {} writes on the stream", calls, n), "at most one write per call".into());
         }
         let mut buf = [0u8; 64];
+        let _ = b.read(&mut buf);
+    }
+}
+
+fn one_write_per_call_queued() {
+    // three small responses queued, a stream that accepts everything: each try_write is still exactly one write
+    let (a, mut b) = UnixStream::pair().unwrap();
+    let writes = std::rc::Rc::new(std::cell::Cell::new(0usize));
+    let mut c = HttpConnection::new(CountingStream { inner: a, writes: writes.clone(), cap: usize::MAX });
+    for _ in 0..3 { c.enqueue_response(Response::new(Version::Http11, StatusCode::NoContent)); }
+    let mut calls = 0;
+    while c.pending_write() && calls < 100 {
+        let before = writes.get();
+        let _ = c.try_write();
+        calls += 1;
+        let n = writes.get() - before;
+        if n > 1 { found("C03", "three responses queued on a stream that accepts everything".into(), format!("try_write call #{} performed {} writes on the stream", calls, n), "at most one write per call".into()); }
+        let mut buf = [0u8; 4096];
+        b.set_nonblocking(true).unwrap();
         let _ = b.read(&mut buf);
     }
 }
@@ -847,6 +873,7 @@ fn search_c03_echo() {
 }
 
 fn search_c03(budget: usize) {
+    one_write_per_call_queued();
     search_c03_receives();
     search_c03_echo();
     one_write_per_call();
@@ -1222,7 +1249,7 @@ fn search_c17(budget: usize) {
     // route tables over a small path alphabet (paths that are prefixes of one another, empty prefix, ':' in paths),
     // every registration order with duplicates; then every request over the alphabet in origin- and absolute-form
     let methods = [Method::Get, Method::Put, Method::Patch];
-    let paths = ["/", "/a", "/a/b", "/a:b", "/T:/a", "/b", "", "a", ":", "/a/"];
+    let paths = ["/", "/a", "/a/b", "/a:b", "/T:/a", "/b", "", "a", ":", "/a/", "/a://b/c", "/c", "/x://"];
     let prefixes = ["", "/api", "/a", ":"];
     let mut rng = Rng(0x17c0ffee);
     let mut tried = 0usize;
@@ -1325,7 +1352,7 @@ fn search_server_limits() {
     // C04: "a server applies to each connection the limit configured when the client connected and answers the
     // violation with a 400 that reports both numbers"
     let mut tried = 0;
-    for (l_connect, l_later, n) in [(100usize, 100usize, 100usize), (100, 100, 101), (0, 0, 1), (10, 100, 50), (100, 10, 50), (51200, 51200, 51201), (5, 5, 5)] {
+    for (l_connect, l_later, n) in [(100usize, 100usize, 100usize), (100, 100, 101), (0, 0, 1), (10, 100, 50), (100, 10, 50), (51200, 51200, 51201), (5, 5, 5), (60000, 60000, 55000), (60000, 60000, 60001)] {
         let path = format!("/tmp/wit_C04_{}_{}.sock", std::process::id(), tried);
         let _ = std::fs::remove_file(&path);
         let mut server = HttpServer::new(&path).unwrap();
@@ -1561,7 +1588,7 @@ fn search_server_histories(prop: &str) {
                 let _ = s.server.respond(r.process(|_| { let mut x = Response::new(Version::Http11, StatusCode::OK); x.set_body(Body::new(body.clone())); x }));
                 let mut got = vec![];
                 let t0 = std::time::Instant::now();
-                while got.len() < expect.len() && t0.elapsed().as_secs() < 20 {
+                while got.len() < expect.len() && t0.elapsed().as_secs() < 30 {
                     s.pump(prop, what);
                     let before = got.len();
                     c.set_nonblocking(true).unwrap();
@@ -1571,6 +1598,7 @@ fn search_server_histories(prop: &str) {
                     if got.len() > expect.len() || got[..] != expect[..got.len()] { break; }
                 }
                 let bad = got.len() > expect.len() || got[..] != expect[..got.len().min(expect.len())];
+                let bad = bad || got.len() < expect.len();
                 if bad {
                     let at = got.iter().zip(expect.iter()).position(|(a, b)| a != b).unwrap_or(expect.len().min(got.len()));
                     s.done();
